@@ -95,7 +95,7 @@ PLANS = {
         rule="case = one PGMIndex<K,Eps,EpsRec,Floating> instantiation x one generated sorted array (13 integer / 9 floating "
              "families incl. band-tight staircases, duplicate runs around eps, boundary keys, chunk-seam runs; n=1..5000, "
              "chunked cases 2^15..2^20 with 1..20 construction threads; further configurations: #huge (> 2^24 keys), #big "
-             "(0.4-3.5 M keys of uneven density), #sweep (70 shrinking prefixes), #giant (4*10^7 equally spaced keys, optimised "
+             "(0.4-3.5 M keys of uneven density), #sweep (70 shrinking prefixes), #giant (4*10^7 equally spaced keys at 1+8 lengths, optimised "
              "flavours), gentle curves whose hulls exceed 2^16 vertices, thorough: #enum bounded-exhaustive; the queried object "
              "is the constructed one or a copied / moved / assigned / relocated one) x every distinct present key queried; non-trivial = "
              ">= 2 distinct keys and (>= 2 segments or a duplicate run); distinct = by hash of (keys, threads)",
